@@ -21,7 +21,7 @@ ASSUMPTIONS = ['thread cases: preemption happens only at the scheduler\'s yield 
                'file operations, source lines of the watched commit/poll/load functions); code between two yield points is atomic; '
                'C-level races inside BTrees/persistent/pickle are not explored',
                'sequential cases: interleaving of whole API calls in one thread']
-BUDGET = {'quick': {'examples': 6000, 'workers': 8},
+BUDGET = {'quick': {'examples': 8000, 'workers': 8},
           'thorough': {'examples': 30000, 'workers': 16}}
 
 
@@ -99,7 +99,14 @@ def _seq_strategy(n, weights):
     def ops(nc):
         free = st.lists(mvccprog.op_strategy(nc, weights), min_size=10, max_size=n)
         if weights != 'write-heavy':
-            return free
+            # snapshot bounds that coincide with a commit: with a stalled clock consecutive commits get
+            # consecutive tids, a reader that begins between them has the second tid as its (exclusive) bound
+            op = mvccprog.op_strategy(nc, weights)
+            nm = st.sampled_from(mvccprog.PLAIN)
+            tight = st.tuples(st.lists(op, max_size=4), nm, nm, st.booleans(), st.lists(op, max_size=6)).map(
+                lambda t: t[0] + [['stall', 0], ['write', 0, t[1]], ['commit', 0], ['begin', 1]]
+                + ([['minimize', 1]] if t[3] else []) + [['write', 0, t[2]], ['commit', 0], ['read', 1, t[2]], ['readall', 1], ['stall', 0]] + t[4])
+            return st.one_of(free, free.map(list), free.map(tuple).map(list), tight)
         # the shape C03 is about: two transactions that overlap on an object; the loser has already handed
         # other records to the storage when the conflict is found; then the world goes on
         op = mvccprog.op_strategy(nc, weights)
@@ -110,7 +117,15 @@ def _seq_strategy(n, weights):
         phased = st.tuples(st.lists(op, max_size=4), x, y, st.integers(1, 3), st.booleans(), st.lists(op, min_size=2, max_size=10)).map(
             lambda t: t[0] + [['begin', 0], ['begin', 1], w(0, t[1], t[3])] + ([w(1, t[2], t[3])] if t[4] else [])
             + [w(1, t[1], t[3]), ['commit', 0], ['commit', 1]] + t[5])
-        return st.one_of(free, phased)
+        # ... and its readCurrent form: a transaction that declares it depends on X being current (without
+        # writing X), writes something else, optionally takes a savepoint; another one changes X first
+        phased_rc = st.tuples(st.lists(op, max_size=4), x, y, st.integers(1, 3), st.booleans(), st.booleans(),
+                              st.lists(op, min_size=2, max_size=8)).map(
+            lambda t: t[0] + [['begin', 0], ['begin', 1], ['readcurrent', 0, t[1]]]
+            + ([w(0, t[2], t[3])] if t[2] != t[1] else [w(0, [n for n in mvccprog.PLAIN if n != t[1]][0], t[3])])
+            + ([['savepoint', 0]] if t[4] else []) + ([['readcurrent', 0, t[1]]] if t[5] else [])
+            + [w(1, t[1], t[3]), ['commit', 1], ['commit', 0]] + t[6])
+        return st.one_of(free, free.map(list), phased, phased_rc)
     return st.integers(2, 3).flatmap(lambda nc: st.fixed_dictionaries({
         'kind': st.sampled_from(['fs', 'fs', 'mapping', 'demo', 'demo-fs']),
         'nconn': st.just(nc), 'pool': st.sampled_from([1, 2, 7]),
